@@ -31,6 +31,7 @@ func propC19(c *Ctx) propInfo {
 		c.callDominatedBy(R, cp, modPath+"/tonconnect.ParseStateInit",
 			requiredCheck{name: "compareStateInitWithAddress(account, stateInit)", src: callResult(modPath + "/tonconnect.compareStateInitWithAddress"), kind: "bool"})
 	}
+	c.definitelyAssigned(R, c.mustFn(R, "tonconnect", "ParseStateInit"), 1, "pubKey")
 	c.returnsUnchanged(R, c.mustFn(R, "tonconnect", "signatureVerify"), 0, "crypto/ed25519.Verify")
 	c.returnsUnchanged(R, c.mustFn(R, "tonconnect", "compareStateInitWithAddress"), 0, "bytes.Equal")
 	pl := c.mustFn(R, "tonconnect", "Server.CheckPayload")
@@ -47,7 +48,7 @@ func propC19(c *Ctx) propInfo {
 		}, nil, "")
 		c.boundsAtSuccess("E8.bounds", pl, 0, "len(payload bytes)", lenOf(nil), 32, 32)
 	}
-	c.floor(R, 9)
+	c.floor(R, 10)
 	c.floor("E8.bounds", 1)
 	// E1: no crash from the entry points that see attacker-supplied proofs
 	roots := c.rootsByName("E1.roots", "tonconnect:Server.CheckProof", "tonconnect:Server.CheckPayload", "tonconnect:ParseStateInit",
